@@ -309,11 +309,34 @@ func RunCheck(o CheckOptions) int {
 			distinct++
 		}
 	}
+	// race prong (properties with a data-race clause)
+	var raceFinds []*raceFinding
+	if rp, ok := e.(RaceProng); ok {
+		n := rp.RaceRuns(o.Tier)
+		if v := os.Getenv("VERIF_RACE_RUNS"); v != "" {
+			if x, err := strconv.Atoi(v); err == nil {
+				n = x
+			}
+		}
+		if n > 0 {
+			finds, stats, tr := RunRaceProng(o, e, n, workDir)
+			raceFinds = finds
+			for k, v := range stats {
+				tot.Extra[k] += v
+			}
+			if tr {
+				trouble = true
+			}
+		}
+	}
 	// violations: verify each replay in a fresh process, then classify
 	known, err := LoadKnownFindings(filepath.Join(o.VerifDir, "known_findings.json"))
 	if err != nil {
 		fmt.Fprintf(os.Stderr, "tabsim: HARNESS TROUBLE cannot read known_findings.json: %v\n", err)
 		trouble = true
+	}
+	for _, rf := range raceFinds {
+		bySig[rf.sig] = &FoundViolation{Signature: rf.sig, Detail: rf.script.Expect.Detail, Count: rf.count, FirstIdx: rf.script.Index, OrigSteps: rf.script.NSteps(), Script: rf.script}
 	}
 	var sigs []string
 	for sig := range bySig {
@@ -334,6 +357,7 @@ func RunCheck(o CheckOptions) int {
 		}
 		exe := o.Exe
 		cmd := exec.Command(exe, "replay", path)
+		cmd.Env = append(os.Environ(), "TABSIM_RACE="+o.RaceExe)
 		outb, rerr := cmd.CombinedOutput()
 		code := 0
 		if ee, ok := rerr.(*exec.ExitError); ok {
@@ -443,6 +467,9 @@ func RunReplay(path string, verbose bool) int {
 	if e == nil {
 		fmt.Fprintf(os.Stderr, "tabsim: no engine for %q\n", s.Property)
 		return 2
+	}
+	if s.Cfg("race", 0) == 1 {
+		return replayRace(path, s)
 	}
 	res := e.Exec(s, true)
 	if verbose {
